@@ -2,7 +2,8 @@
 """usage: seed_import2.py <agent out dir>/<mK> <PID> <name> <result text>   (round-2 seeds)"""
 import sys, os, json, shutil
 src, pid, name, txt = sys.argv[1:5]
-ROUND3 = "-r3" in name
+ROUND3 = "-r3" in name or "-r4" in name
+ROUND4 = "-r4" in name
 dst = os.path.join(os.path.dirname(os.path.dirname(os.path.abspath(__file__))), "seeded", name)
 os.makedirs(dst, exist_ok=True)
 for f in ("patch.diff", "demo.py", "notes.md"):
@@ -13,7 +14,10 @@ meta = {"property": pid,
         "origin": ("round 3: written by an independent sub-agent that saw only the property text, the list of code regions used in "
                    "rounds 1-2 and a scratch worktree of /repo (asked for a different kind of slip: another route to the same "
                    "functionality, rare legal parameters, state surviving between uses, ordering, the other execution path)")
-                  if ROUND3 else "round 2: written by an independent sub-agent that saw only the property text and a scratch worktree of /repo "
+                  if ROUND3 and not ROUND4 else
+                  ("round 4: written by an independent sub-agent that saw only the property text, the list of code regions and kinds "
+                   "of slip used in rounds 1-3 and a scratch worktree of /repo (asked for error paths, loop boundaries, Python "
+                   "semantics, shared helpers, fast paths for special values)") if ROUND4 else "round 2: written by an independent sub-agent that saw only the property text and a scratch worktree of /repo "
                   "(asked for breakages that need two features combined, two cooperating sites or a multi-step history)",
         "needs_to_manifest": notes,
         "confirmed": {"how": f"tools/seedcheck.sh {src} {pid} quick  (scratch copy of /repo HEAD under /tmp, removed afterwards)",
